@@ -41,7 +41,7 @@ def run_check(d, prop, tier, seed, replay, t0):
     bins = {fl: d.build(fl) for fl in flavours}
     known = d.known_findings(prop)
     known_sigs = [k["signature"] for k in known]
-    asan_env = {"ASAN_OPTIONS": "detect_leaks=0:abort_on_error=1:allocator_may_return_null=1"}
+    asan_env = {"ASAN_OPTIONS": "detect_leaks=0:abort_on_error=1:allocator_may_return_null=1", "GV_NO_BIG": "1"}
 
     def env_for(fl):
         e = dict(d.ENV)
